@@ -5,6 +5,7 @@ CONSTANTS
   MaxCommits = 0
   Crashes = FALSE
   WriteFailures = FALSE
+  Uncache = "walk"
   Dedup = FALSE
   Order = "post"
 INVARIANT Report
